@@ -12,6 +12,14 @@ type outcome struct {
 	normal    *State
 	breaks    map[string][]*State
 	continues map[string][]*State
+	gotos     map[string][]*State
+}
+
+func (o *outcome) addGoto(label string, s *State) {
+	if o.gotos == nil {
+		o.gotos = map[string][]*State{}
+	}
+	o.gotos[label] = append(o.gotos[label], s)
 }
 
 func (o *outcome) addBreak(label string, s *State) {
@@ -37,14 +45,30 @@ func (o *outcome) absorb(p outcome) {
 			o.addContinue(l, s)
 		}
 	}
+	for l, ss := range p.gotos {
+		for _, s := range ss {
+			o.addGoto(l, s)
+		}
+	}
 }
 
 func (x *Exec) block(list []ast.Stmt, st *State) outcome {
 	var out outcome
 	cur := st
 	for _, s := range list {
+		// forward goto: states that jumped to this label join here
+		if ls, ok := s.(*ast.LabeledStmt); ok {
+			if pend := out.gotos[ls.Label.Name]; len(pend) > 0 {
+				all := pend
+				if cur != nil {
+					all = append([]*State{cur}, pend...)
+				}
+				cur = x.mergeAll(all)
+				delete(out.gotos, ls.Label.Name)
+			}
+		}
 		if cur == nil {
-			break
+			continue
 		}
 		o := x.stmt(s, cur, "")
 		out.absorb(o)
@@ -143,6 +167,8 @@ func (x *Exec) stmt(s ast.Stmt, st *State, label string) outcome {
 			o.addBreak(l, st)
 		case token.CONTINUE:
 			o.addContinue(l, st)
+		case token.GOTO:
+			o.addGoto(l, st)
 		default:
 			x.unsupported(s, "unsupported branch statement %s", s.Tok)
 		}
